@@ -41,7 +41,8 @@ RULE = ("scenario = seeded initial termios attributes (canonical/raw, echo, ISIG
         "differed from the entry attributes; distinct = hash of (scenario, fault)")
 PROBES = ["fault_while_attrs_modified", "fault_in_nested_read", "predicate_raised",
           "timeout_path", "blocking_read_min", "infinite_timeout_read", "draw_animated_echo_off",
-          "canonical_entry", "raw_entry", "echo_read", "read_nested_inside_read"]
+          "canonical_entry", "raw_entry", "echo_read", "read_nested_inside_read",
+          "draw_from_a_worker_thread"]
 COMPONENTS = {
     "real": ["term_image.utils.query_terminal/read_tty/read_tty_all/write_tty/get_cell_size/"
              "get_fg_bg_colors/get_terminal_name_version", "Renderable.draw/_animate_/"
@@ -227,6 +228,26 @@ def run(ch, ctx, fault=None):
                     "SimRenderable", tuple(size), nfr, loops, echo_in, hide, pad)
                 call = lambda: r.draw(None, pad, loops=loops, cache=False,  # noqa: E731
                                       echo_input=echo_in, hide_cursor=hide)
+            if op.startswith("draw") and ch.bool("from_a_worker_thread", 0.2):
+                # the application draws from a worker thread (the only one touching the
+                # renderable): nothing about restoring the terminal depends on the main thread
+                ctx.probe("draw_from_a_worker_thread")
+                inner = call
+
+                def call(inner=inner):
+                    import threading
+                    box = []
+
+                    def run_it():
+                        try:
+                            inner()
+                        except BaseException as e:  # noqa: B902
+                            box.append(e)
+                    th = threading.Thread(target=run_it)
+                    th.start()
+                    th.join()
+                    if box:
+                        raise box[0]
             fired_before = k.fault_done
             exc = None
             try:
